@@ -77,27 +77,27 @@ FallsThrough(P, i) == P[i].op \notin NoFallOps
 (* labels that are the target of some callsub, anywhere in the text *)
 CallTargets(P) == { P[i].s : i \in { j \in 1..Len(P) : P[j].op = "callsub" } }
 
-Range(f) == { f[x] : x \in DOMAIN f }
+RangeOf(f) == { f[x] : x \in DOMAIN f }
 SeqToSet(sq) == { sq[i] : i \in 1..Len(sq) }
 
-(* sequence without duplicates, keeping first occurrences *)
-RECURSIVE DedupSeq(_)
-DedupSeq(sq) == IF sq = << >> THEN << >>
-                ELSE LET front == DedupSeq(SubSeq(sq, 1, Len(sq) - 1))
-                         x == sq[Len(sq)]
-                     IN IF x \in SeqToSet(front) THEN front ELSE Append(front, x)
+(* NOTE: the operators below are deliberately NOT recursive.  SANY gives every RECURSIVE      *)
+(* operator the highest level, and TLC then refuses to pre-evaluate (and cache) any constant *)
+(* definition that uses one - the per-program tables would be recomputed in every state.     *)
 
 (* ascending sequence of a finite set of integers *)
-RECURSIVE SortedSeq(_)
-SortedSeq(S) == IF S = {} THEN << >>
-                ELSE LET m == CHOOSE x \in S : \A y \in S : x <= y
-                     IN << m >> \o SortedSeq(S \ {m})
+SortedSeq(S) == [i \in 1..Cardinality(S) |-> CHOOSE x \in S : Cardinality({ y \in S : y < x }) = i - 1]
+
+(* sequence without duplicates, keeping first occurrences *)
+DedupSeq(sq) ==
+    LET keep == { i \in 1..Len(sq) : \A j \in 1..(i - 1) : sq[j] # sq[i] }
+        ks   == SortedSeq(keep)
+    IN  [k \in 1..Len(ks) |-> sq[ks[k]]]
 
 (* concatenation of a sequence of sequences *)
 Cat(seqs) == LET RECURSIVE C(_)
                  C(i) == IF i = 0 THEN << >> ELSE C(i - 1) \o seqs[i]
              IN C(Len(seqs))
 
-Max(S) == CHOOSE x \in S : \A y \in S : y <= x
-Min(S) == CHOOSE x \in S : \A y \in S : x <= y
+MaxOf(S) == CHOOSE x \in S : \A y \in S : y <= x
+MinOf(S) == CHOOSE x \in S : \A y \in S : x <= y
 =============================================================================
